@@ -93,10 +93,16 @@ def translate():
     if sorted(std) != sorted(DOMS):
         raise AnchorMoved("StandardHealthKeys: %s" % std)
     for name in ("outboundConnectivitySlotsPerDomain", "outboundConnectivityDomainTCP", "outboundConnectivityDomainDnsUDP", "outboundConnectivityDomainDataUDP"):
-        c[name] = int(_need(re.search(r"\b%s\s*=\s*uint32\((\d+)\)" % name, cn), name).group(1))
+        c[name] = int(_need(re.search(r"\b%s\s*=\s*(?:uint32\()?(\d+)\)?" % name, cn), name).group(1))
     m = _need(re.search(r"outboundConnectivitySlotsPerOutbound\s*=\s*outboundConnectivitySlotsPerDomain \* (\d+)", cn), "SlotsPerOutbound")
     c["conn_domains"] = int(m.group(1))
-    _need(re.search(r"return uint32\(outbound\)\*outboundConnectivitySlotsPerOutbound \+ domainIdx\*outboundConnectivitySlotsPerDomain \+ ipVersionIdx", cn), "outboundConnectivityMapKey formula")
+    notes = []
+    if not re.search(r"return uint32\(outbound\)\*outboundConnectivitySlotsPerOutbound \+ domainIdx\*outboundConnectivitySlotsPerDomain \+ ipVersionIdx", cn):
+        # the model's conn_key is no longer known to be the code's formula: reported as a broken tie unless the
+        # differential run finds a failing input (every key the implementation computes is compared with the model and the spec)
+        notes.append("outboundConnectivityMapKey: the expected return expression is gone")
+    if not re.search(r"outboundConnectivitySlotsPerDomain\s*=\s*uint32\(", cn):
+        notes.append("outboundConnectivitySlotsPerDomain is no longer declared uint32")
     _need(re.search(r"sortingLatency: time\.Hour,", ad), "initial sorting latency time.Hour")
     lines = ["(* GENERATED by tools/c16.py from %s — do not edit. *)" % "component/outbound/dialer/{connectivity_check,dialer,sticky_cache,health_domain}.go, control/connectivity.go",
              "From Coq Require Import List NArith.", "From Dae Require Import C16_Spec.", "Import ListNotations.", "Open Scope N_scope.", ""]
@@ -114,6 +120,8 @@ def translate():
     lines.append("Definition standard_order : list dom := [%s]." % "; ".join(std))
     lines.append("")
     vlib.write_if_changed(os.path.join(vlib.COQ, "gen", "C16_Consts.v"), "\n".join(lines))
+    if notes:
+        c["anchor_notes"] = notes
     return c
 
 
@@ -467,8 +475,8 @@ def describe(case, res, errs, codes):
         if k != first:
             continue
         sets = {(s["g"], s["dom"]): s for s in st["sets"]}
-        info["op"] = op
         op = op or {"op": "initial state"}
+        info["op"] = op
         info["alive_flags"] = {"node%d" % n: [row[IDX[dom]][0] for dom in range(6)] for n, row in enumerate(st["dialers"])}
         info["transition_callbacks"] = st["trans"]
         info["slot_writes_this_step"] = [{"group": b[0], "outbound_id": oid_of(case, b[0]), "type": DOMS[b[1]], "slot_written": b[2],
@@ -508,6 +516,9 @@ def main(argv):
         out.violation("anchor", {"broken": "translator: anchor moved: %s" % e}, "the source shape the constants translator expects is gone: %s" % e, no_failing_input=True)
         return out.finish()
     proof_ok, pinfo = vlib.proof_stage(out, PROPS, TARGETS)
+    if consts.get("anchor_notes"):
+        proof_ok = False
+        pinfo["failed"] = {"stage": "anchor", "notes": consts["anchor_notes"], "proof_stage": pinfo.get("failed")}
     cov.update(obligations=pinfo["obligations"], discharged=pinfo["discharged"],
                checker_cmd="cd /verif/coq && coq_makefile -f _CoqProject -o Makefile && make -j16 " + " ".join(TARGETS) + " && coqc -Q . Dae C16_Props.v (Print Assumptions captured)",
                theorems=pinfo.get("theorems", []), print_assumptions=pinfo.get("assumptions", []), extracted_constants=consts,
@@ -599,7 +610,6 @@ def main(argv):
             if cls in seen:
                 continue
             seen.add(cls)
-            first_op = info0.get("op", {}).get("op")
             pred = (lambda er: is_hard(er)) if cls == "other" else (lambda er: is_hard(er))
             small = cases[i] if i < len(corpus) else shrink(sc, binary, cases[i], pred)
             errs, _, f3, results = evaluate(sc, binary, [small], "min")
